@@ -281,6 +281,29 @@ def run(tier):
     rep.assumptions += ['an age is covered when the bracketing age columns hold positive numbers; ages past the last column are covered when that column is',
                         'lower-case event spellings are used where check_event_code accepts them',
                         'the combined-events table has no open-best column: for it only the factor is compared with the table, the grade must be finite, monotone and spelling independent']
+    # the year argument in its spellings (int, text, default): whichever table a spelling selects, the three wrappers must select the same one -
+    # the grade is (open best / factor) / time, or mark / (open best / factor), of the values the same spelling gives
+    acc = Acc()
+    a_ = G['athlib']
+    for ykw in (dict(year=2015), dict(year=2023), dict(year='2015'), dict(year='2023'), dict(), dict(year=' 2015'), dict(year=2015.0)):
+        for g, ev, age, perf in (('m', '100', 50, 12.0), ('f', 'HJ', 62, 1.30), ('m', 'MAR', 75.5, 12000.0), ('F', '5K', 41, 1300.0), ('m', 'SP', 57, 11.0), ('f', '200', 35, 27.0)):
+            acc.n += 1
+            case = dict(gender=g, event=ev, age=age, perf=perf, year=repr(ykw.get('year', 'default')))
+            try:
+                b = a_.wma_world_best(g, ev, **ykw)
+                f = a_.wma_age_factor(g, age, ev, **ykw)
+                gr = a_.wma_age_grade(g, age, ev, perf, **ykw)
+            except Exception as e:
+                acc.add('year_spellings_refused')
+                continue
+            std = b / f
+            wg = perf / std if is_field(G, ev) else std / perf
+            # the default year of the three wrappers differs by design (factor: 2015 spelling, grade/best: 2023); only explicit spellings are compared
+            if 'year' in ykw and not close(gr, wg, 1e-11):
+                acc.bad('wrappers-disagree-on-the-table-year', case, 'wma_age_grade = %r, but wma_world_best / wma_age_factor with the same year argument give %r' % (gr, wg))
+            else:
+                acc.nontrivial += 1
+    merge(rep, [acc.pack()], part='year argument spellings: grade vs best and factor of the same spelling')
     W = 'athlib.wma_age_factor', 'athlib.wma_age_grade', 'athlib.wma_world_best', 'athlib.wma_athlon_age_factor', 'athlib.wma_athlon_age_grade'
     oc = [(W[0], ('m', 50, '100')), (W[0], ('f', 62, 'HJ')), (W[0], ('m', 75.5, 'MAR')), (W[0], ('M', 40, '5K'), dict(year=2015)), (W[0], ('m', 50, '100'), dict(year=2023)),
           (W[0], ('f', 62, 'hj'), dict(year='2023')), (W[0], ('m', 105, '200')), (W[0], ('f', 35, '60H'), dict(year=2015)), (W[0], ('m', 50, 'XX')),
